@@ -43,6 +43,10 @@ func c03Routes(proto string) []routeSpec {
 		// a dead address and a live host: a connect failure is followed by a re-selection (retried also without retry_on)
 		{Key: "mix", Cluster: "cl-$P-mix", Extra: jmap{"timeout": "900ms", "retry_policy": jmap{"retry_on": false, "num_retries": 2}}},
 		{Key: "mixon", Cluster: "cl-$P-mix", Extra: jmap{"timeout": "900ms", "retry_policy": jmap{"retry_on": true, "num_retries": 3}}},
+		// connects that time out after 150 ms (neither accepted nor refused): alone, and followed by a live host
+		{Key: "hole", Cluster: "cl-$P-hole", Extra: jmap{"timeout": "800ms"}},
+		{Key: "holemix", Cluster: "cl-$P-holemix", Extra: jmap{"timeout": "1200ms", "retry_policy": jmap{"retry_on": false, "num_retries": 2}}},
+		{Key: "holemixon", Cluster: "cl-$P-holemix", Extra: jmap{"timeout": "1200ms", "retry_policy": jmap{"retry_on": true, "num_retries": 3}}},
 		// global timeout 400 ms, retried on 5xx, no per-try timeout: a 503 that arrives just before the global timeout makes the
 		// timeout fire while the retry is being set up
 		{Key: "edge", Cluster: "cl-$P", Extra: jmap{"timeout": "400ms", "retry_policy": jmap{"retry_on": true, "num_retries": 2}}},
@@ -135,7 +139,7 @@ func planClass(p string) string {
 }
 
 func c03Engine(c *lab.Ctx) {
-	c.Rule("running MOSN, 3 protocol pairings x routes {fast, retry(per-try 200ms, 2 retries), retry without per-try timeout, unknown cluster, empty cluster, dead host, dead address + live host (with / without retry_on), a retrying route whose 5xx arrives at the edge of its global timeout, no route} x per-attempt upstream plans {ok,5xx,4xx,delay,stall,close,rst,half,late,big,answer + go-away announcement} x {two-way, abandoned by client}; 8 concurrent clients per protocol; distinct = (protocol, route, plan class, client outcome)")
+	c.Rule("running MOSN, 3 protocol pairings x routes {fast, retry(per-try 200ms, 2 retries), retry without per-try timeout, unknown cluster, empty cluster, dead host, dead address + live host (with / without retry_on), an address whose connects time out alone and + live host, a retrying route whose 5xx arrives at the edge of its global timeout, no route} x per-attempt upstream plans {ok,5xx,4xx,delay,stall,close,rst,half,late,big,answer + go-away announcement} x {two-way, abandoned by client}; 8 concurrent clients per protocol; distinct = (protocol, route, plan class, client outcome)")
 	e, err := newEngine(c, engineProtos, c03Routes, nil, nil)
 	if err != nil {
 		c.Require("mosn started", false, err.Error())
@@ -163,7 +167,7 @@ func c03Engine(c *lab.Ctx) {
 					case 1:
 						cs.key, cs.plan = "empty", "ok"
 					case 2:
-						cs.key, cs.plan = "dead", "ok"
+						cs.key, cs.plan = crng.PickStr("dead", "hole"), "ok"
 					case 3:
 						cs.key, cs.plan = "zzz-noroute", "ok"
 					case 4, 5:
@@ -171,7 +175,7 @@ func c03Engine(c *lab.Ctx) {
 					case 6:
 						cs.key, cs.plan = "retry0", c03Retry0Plans[crng.Intn(len(c03Retry0Plans))]
 					case 7:
-						cs.key, cs.plan = crng.PickStr("mix", "mixon"), c03MixPlans[crng.Intn(len(c03MixPlans))]
+						cs.key, cs.plan = crng.PickStr("mix", "mixon", "holemix", "holemixon"), c03MixPlans[crng.Intn(len(c03MixPlans))]
 					case 8:
 						// the first attempt's 503 arrives 0..20 ms before the global timeout, the second attempt is never answered
 						cs.key, cs.plan = "edge", fmt.Sprintf("d%d:s503|stall", 380+crng.Intn(21))
